@@ -252,7 +252,10 @@ func c07Run(t *testing.T, sc Scenario, res *Result) {
 	defer os.RemoveAll("testdata")
 	mirror := sc.X["mirror"] == "1"
 	r := newRng(sc.Seed, 0xc07)
-	o := progOpts{rejecting: r.chance(1, 2), sites: 1, nonFatal: true, repeat: r.chance(1, 4), failDen: sc.K}
+	o := progOpts{rejecting: r.chance(1, 2), sites: 1, nonFatal: true, repeat: r.chance(1, 4), failDen: sc.K, skipAfter: r.chance(1, 3)}
+	if r.chance(1, 2) {
+		o.skipFirst = r.between(2, 5) // skipped cases before the falsified one: the seed schedule counts them too
+	}
 	p := genProg(sc.Seed, o)
 	// make the first failif a hash predicate with probability 1/K so the failing index varies
 	for i := range p.Steps {
@@ -293,6 +296,11 @@ func c07Run(t *testing.T, sc Scenario, res *Result) {
 			res.violate(sc, "c07/whole-run", "two runs with the same -rapid.seed differ (test cases, failure or minimised result)",
 				map[string]any{"program": p.Desc, "flags": base, "diff": diffRuns(a, a2)})
 		}
+	}
+	if a.rp.Kind == "flaky" {
+		res.violate(sc, "c07/flaky", "a deterministic program was reported as flaky: the reproduction run with the failing case's seed did not fail the same way",
+			map[string]any{"program": p.Desc, "flags": base, "tb": a.tb.brief()})
+		return
 	}
 	if a.rp.Kind != "failed" && a.rp.Kind != "panic" {
 		res.inc("A_not_failed")
